@@ -85,7 +85,7 @@ func init() {
 	}
 
 	Checks["C02"] = func(c *Ctx) {
-		trs := pick(c, []uint8{0, 3, 63}, []uint8{0, 1, 2, 3, 4, 5, 31, 62, 63})
+		trs := pick(c, []uint8{0, 3, 63}, []uint8{0, 1, 3, 31, 63})
 		fam := &HistFamily{
 			Nmax:      pick(c, 7, 9),
 			Insts:     stdInsts(trs, []string{"all", "even"}),
@@ -97,6 +97,10 @@ func init() {
 		c.Cov.Bound["TotalRows"] = fmt.Sprint(trs)
 		c.Cov.Bound["PermLimit"] = fam.PermLimit
 		BFS(c, fam, 0)
+		// states reached through an Undo are reachable states too
+		nu := pick(c, 4, 5)
+		c.Cov.Bound["undo_family.Nmax"] = nu
+		BFS(c, &HistFamily{Nmax: nu, Insts: stdInsts(pick(c, []uint8{0, 63}, []uint8{0, 3, 63}), []string{"all", "even"})[1:], Or: HistOracle{Proofs: true, Prop: "C02"}, UndoBud: 1, PermLimit: 2}, 0)
 		if c.Thorough() {
 			tallFamily(c, "C02")
 		}
@@ -104,18 +108,18 @@ func init() {
 
 	Checks["C10"] = func(c *Ctx) {
 		c.Cov.Rule = "two BFS families over block histories: (A) forward only, (B) with undo, serialize/restore and Verify(remember) transitions; in every reached state GetLeafPosition/GetLeafHashPositions are probed with every leaf ever added, every internal node hash, a fresh and the zero hash, GetHash with every position in [0, 2^(rows+1)+2] plus 2^31, 2^32+1, 2^63, 2^64-1, and the tracked-leaf counts are compared with the reference forest; non-trivial = distinct concrete state with a dead leaf or after undo/restore/verify"
-		trsA := pick(c, []uint8{0, 1, 2, 3, 4, 5, 62, 63}, allTR())
+		trsA := pick(c, []uint8{0, 1, 2, 3, 4, 5, 62, 63}, []uint8{0, 1, 2, 3, 4, 5, 6, 7, 31, 32, 33, 61, 62, 63})
 		famA := &HistFamily{
 			Nmax:  pick(c, 8, 9),
 			Insts: stdInsts(trsA, []string{"all", "even", "none"}),
 			Or:    HistOracle{Lookups: true, Prop: "C10"},
 		}
-		trsB := pick(c, []uint8{0, 3, 63}, []uint8{0, 1, 2, 3, 4, 5, 62, 63})
+		trsB := pick(c, []uint8{0, 3, 63}, []uint8{0, 2, 3, 63})
 		famB := &HistFamily{
 			Nmax:    pick(c, 4, 5),
 			Insts:   stdInsts(trsB, []string{"all", "even", "none"}),
 			Or:      HistOracle{Lookups: true, Prop: "C10"},
-			UndoBud: pick(c, 1, 2),
+			UndoBud: 1,
 			RTBud:   1,
 			VerBud:  1,
 		}
@@ -135,13 +139,13 @@ func init() {
 
 	Checks["C06"] = func(c *Ctx) {
 		c.Cov.Rule = "BFS over block histories with Undo as a transition (newest first, budget = number of undos per path, arbitrary interleaving with further blocks); after every transition of a path that contains an undo, roots, leaf count, GetLeafPosition of every leaf ever added, provability and byte-identical canonical proofs of every tracked subset, and GetHash of every position are compared with the reference forest of the model state; the seen-set key holds the concrete dumps and the top frames of the undo stack; non-trivial = distinct concrete state reached through at least one undo or with a dead leaf"
-		trs := pick(c, []uint8{0, 3, 63}, []uint8{0, 1, 2, 3, 4, 5, 62, 63})
+		trs := pick(c, []uint8{0, 3, 63}, []uint8{0, 2, 3, 63})
 		insts := stdInsts(trs, []string{"all", "even", "none"})[1:] // no Stump: it cannot undo
 		fam := &HistFamily{
 			Nmax:      pick(c, 5, 6),
 			Insts:     insts,
-			Or:        HistOracle{Roots: true, Proofs: true, Lookups: true, Prop: "C06", OnlyAfter: "undo"},
-			UndoBud:   pick(c, 2, 3),
+			Or:        HistOracle{Roots: true, Proofs: true, Lookups: true, Prop: "C06", OnlyAfter: "undo", ProofSets: pick(c, "", "small")},
+			UndoBud:   2,
 			PermLimit: 2,
 		}
 		c.Cov.Bound["Nmax"] = fam.Nmax
@@ -149,8 +153,17 @@ func init() {
 		c.Cov.Bound["undo_budget"] = fam.UndoBud
 		BFS(c, fam, 0)
 		if c.Thorough() && !c.Expired() {
+			d3 := &HistFamily{
+				Nmax:      5,
+				Insts:     stdInsts([]uint8{0, 63}, []string{"all", "none"})[1:],
+				Or:        HistOracle{Roots: true, Proofs: true, Lookups: true, Prop: "C06", OnlyAfter: "undo", ProofSets: "small"},
+				UndoBud:   3,
+				PermLimit: 2,
+			}
+			c.Cov.Bound["three_undos.Nmax"] = d3.Nmax
+			BFS(c, d3, 0)
 			deep := &HistFamily{
-				Nmax:      8,
+				Nmax:      7,
 				Insts:     stdInsts([]uint8{0, 63}, []string{"all", "even"})[1:],
 				Or:        HistOracle{Roots: true, Proofs: true, Lookups: true, Prop: "C06", OnlyAfter: "undo", ProofSets: "small"},
 				UndoBud:   1,
